@@ -487,8 +487,40 @@ def _fills(tree, f, name, depth):
     return False
 
 
+def module_files_loaded_once(chk: Check):
+    """Definitions whose classes live in a plain module file carry the path of the file.  Executing the file once per definition creates a new
+    set of classes each time: a definition that refers to another one of the same file then holds a value of an incompatible class and
+    loading as configurations fails.  The execution must be conditional on the module not being loaded yet."""
+    tree = chk.tree
+    lo = tree.func("core.objects", "ConfigInformation.load_objects")
+    g = CFG(lo.node)
+    rd = ReachingDefs(g)
+    execs = [(n, c) for n, c in g.call_nodes(lambda c: tail(c) == "exec_module")]
+    if not execs:
+        chk.ok(chk.fkey(lo, "no module file is executed by the loader"), chk.loc(lo.module, lo.node))
+        return
+    # tests that look the module up: they mention sys.modules, or test a name whose reaching definition is a lookup in sys.modules
+    lookups = []
+    for t in g.live:
+        if t.kind != "test":
+            continue
+        hit = "sys.modules" in src(t.ast)
+        for x in ast.walk(t.ast):
+            if isinstance(x, ast.Name) and any(d.value is not None and "sys.modules" in src(d.value) for d in rd.defs_at(x.id, t)):
+                hit = True
+        if hit:
+            lookups.append(t)
+    heads = [h for h in g.live if h.kind == "for" and src(h.ast.iter) == "definitions"]
+    for n, c in execs:
+        starts = [m for h in heads for m, l in h.succ if l == "loop" and n.id in g.reachable(m, avoid=[h])]
+        ok = bool(lookups) and bool(starts) and all(g.on_every_path(lookups, start=m, end=n) for m in starts)
+        chk.require(ok, chk.fkey(lo, "module file executed once"), f"`{src(c)}` runs for every definition that names a file, without looking the module up first: two definitions of the same "
+                    "file get different class objects, so a parameter holding the other configuration is rejected (`X is not a subtype of X`)", chk.loc(lo.module, c))
+
+
 def r5_sharing(chk: Check):
     fresh_accumulators(chk)
+    module_files_loaded_once(chk)
     tree = chk.tree
     f = tree.func("core.objects", "ConfigInformation.__get_objects__")
     g = CFG(f.node)
